@@ -61,6 +61,11 @@ func (x *Exec) execCall(fr *Frame, n *Node, st *State, instr ssa.Instruction, co
 		c.argVals = append(c.argVals, a)
 	}
 	x.dispatchCall(c)
+	if callee := common.StaticCallee(); callee != nil {
+		x.afterCall(c, []string{callee.Name(), funcKey(callee)})
+	} else if common.IsInvoke() {
+		x.afterCall(c, []string{common.Method.Name(), typeKeyShort(common.Value.Type()) + "." + common.Method.Name()})
+	}
 	if val != nil {
 		switch len(c.resTypes) {
 		case 0:
@@ -349,6 +354,7 @@ func (x *Exec) callInvoke(c *callCtx) {
 	recvT := c.common.Value.Type()
 	iname := typeKeyShort(recvT) + "." + m.Name()
 	c.fr.callCount["call:"+iname]++
+	x.atAsserts(c.fr, c.n, c.st, "call", []string{m.Name(), iname}, c.instr)
 	if h, ok := specTable[iname]; ok {
 		if h(c) {
 			return
